@@ -4,6 +4,7 @@ import (
 	"context"
 	"fmt"
 	"net"
+	"sync/atomic"
 
 	"github.com/coredns/coredns/plugin/pkg/dnstest"
 	"github.com/miekg/dns"
@@ -109,18 +110,51 @@ type Query struct {
 	Obs     map[string]*Obs    `json:"obs"`
 	Udp     bool               `json:"udp"` // also ask over UDP and observe the size of what is written
 	UdpObs  map[string]*UdpObs `json:"udpobs,omitempty"`
+	// per backend: the handler counted a response-cache hit while serving this query
+	// (only recorded by handlers opened with OpenCached)
+	CacheHit map[string]bool `json:"cache_hit,omitempty"`
 }
 
 // Servers are the three real servers over one data file.
 type Servers struct {
 	H map[string]*dnsserver.FBDNSDB
+	// hits counts, per backend, the DNS_cache.hit increments of a handler opened with
+	// OpenCached (nil for handlers without cache)
+	hits map[string]*hitStats
 }
 
 var Backends = []string{"cdb", "rdb1", "rdb2"}
 
+// hitStats is a stats sink that only counts response-cache hits.
+type hitStats struct {
+	stats.DummyStats
+	n int64
+}
+
+// IncrementCounter counts DNS_cache.hit and ignores every other key.
+func (s *hitStats) IncrementCounter(key string) {
+	if key == "DNS_cache.hit" {
+		atomic.AddInt64(&s.n, 1)
+	}
+}
+
 // Open loads the three databases into three handlers (no cache).
 func Open(b *Built) (*Servers, error) {
+	return openServers(b, dnsserver.CacheConfig{Enabled: false})
+}
+
+// OpenCached loads the three databases into three handlers whose response cache is enabled
+// (LRU of the given size, no caching of weighted answers): queries asked one after the other
+// through the same Servers then form a history.
+func OpenCached(b *Built, lruSize int) (*Servers, error) {
+	return openServers(b, dnsserver.CacheConfig{Enabled: true, LRUSize: lruSize})
+}
+
+func openServers(b *Built, cache dnsserver.CacheConfig) (*Servers, error) {
 	s := &Servers{H: map[string]*dnsserver.FBDNSDB{}}
+	if cache.Enabled {
+		s.hits = map[string]*hitStats{}
+	}
 	for _, be := range Backends {
 		cfg := dnsserver.DBConfig{Path: b.CDB, Driver: "cdb"}
 		switch be {
@@ -129,7 +163,13 @@ func Open(b *Built) (*Servers, error) {
 		case "rdb2":
 			cfg = dnsserver.DBConfig{Path: b.RDB2, Driver: "rocksdb"}
 		}
-		h, err := dnsserver.NewFBDNSDBBasic(dnsserver.HandlerConfig{}, cfg, dnsserver.CacheConfig{Enabled: false}, &dnsserver.DummyLogger{}, &stats.DummyStats{})
+		var st stats.Stats = &stats.DummyStats{}
+		if cache.Enabled {
+			hs := &hitStats{}
+			s.hits[be] = hs
+			st = hs
+		}
+		h, err := dnsserver.NewFBDNSDBBasic(dnsserver.HandlerConfig{}, cfg, cache, &dnsserver.DummyLogger{}, st)
 		if err != nil {
 			s.Close()
 			return nil, err
@@ -267,6 +307,10 @@ func (s *Servers) Ask(q *Query) error {
 	if q.Udp {
 		q.UdpObs = map[string]*UdpObs{}
 	}
+	q.CacheHit = nil
+	if s.hits != nil {
+		q.CacheHit = map[string]bool{}
+	}
 	ip := net.ParseIP(q.Client)
 	for _, be := range Backends {
 		h := s.H[be]
@@ -313,6 +357,10 @@ func (s *Servers) Ask(q *Query) error {
 			m.Unpack(append([]byte{}, wire...))
 			w := &tcpWriter{ip: ip}
 			rec := dnstest.NewRecorder(w)
+			if hs := s.hits[be]; hs != nil {
+				before := atomic.LoadInt64(&hs.n)
+				defer func() { q.CacheHit[be] = atomic.LoadInt64(&hs.n) > before }()
+			}
 			defer func() {
 				if e := recover(); e != nil {
 					o.Panic = fmt.Sprint(e)
